@@ -65,7 +65,7 @@ CLAIMED = {
              'quantities is not a theorem (oracle only on linear ones).',
         note=NOTE + ' scipy interp1d(kind=linear, extrapolate) is modelled by its documented formula and validated by the correspondence.'),
     'C16': dict(
-        technique='Coq proof over a Gallina model of the 12 index maps and 6 projections + exhaustive differential correspondence (all selection vectors up to length 8/12) + TRANSLATION TIE (Prop_Tie_Maps.v): the bodies of the twelve map_* and six project_* functions are regenerated from the source on every run by a fail-closed ast translator and machine-checked refinement theorems show the hand model computes exactly what the translated program computes for every oracle behaviour',
+        technique='Coq proof over a Gallina model of the 12 index maps and 6 projections + exhaustive differential correspondence (all selection vectors up to length 8/12) + TRANSLATION TIE (Prop_Tie_Maps.v): the bodies of the twelve map_* and six project_* functions are regenerated from the source on every run by a fail-closed ast translator and machine-checked refinement theorems show the hand model computes exactly what the translated program computes for every oracle behaviour + SECOND TRANSLATION TIE (Prop_Tie_Cyclesobj.v): the bodies of get_subset_vector and get_chain_vector are regenerated from the source on every run by a fail-closed ast translator and machine-checked refinement theorems show the hand model computes exactly what the translated program computes for every oracle behaviour',
         text='Theorems (Prop_C16.v) prove for every cycle vector and selection that subset/chain vectors are the ordered numbering / '
              'maximal runs, every map is defined on every existing index, forward-then-backward contains the original sample, '
              'forward maps are none exactly for unlabelled/unselected items, and projections place each value exactly on the items '
@@ -134,7 +134,7 @@ CLAIMED['C09'] = dict(
          'spline interpolants; it is watched by an oracle sweep with tolerances at 3x the error measured on this tree (regression guard only).',
     note=NOTE + ' IEEE rounding enters only through the explicit rounding function of wrap; np.gradient/np.unwrap/medfilt are modelled concretely and validated on dyadic data.')
 CLAIMED['C15'] = dict(
-    technique='Coq proof over a state-machine model of the Cycles container (induction over all operation histories; parametric in the reducing function; string-level condition parser) + differential correspondence of random operation histories with cache on and off + model-free oracle',
+    technique='Coq proof over a state-machine model of the Cycles container (induction over all operation histories; parametric in the reducing function; string-level condition parser) + differential correspondence of random operation histories with cache on and off + model-free oracle + TRANSLATION TIE (Prop_Tie_Cyclesobj.v): the bodies of Cycles.pick_cycle_subset, get_matching_cycles, _parse_condition, add_cycle_metric, _safe_add_metric (container state threaded explicitly, erasure proved) are regenerated from the source on every run by a fail-closed ast translator and machine-checked refinement theorems show the hand model computes exactly what the translated program computes for every oracle behaviour',
     text='Theorems (Prop_C15.v) prove by induction over EVERY operation history (compute metric in cycle/augmented mode for any function, add metric, '
          'timings, pick subset, chain timings, exports) that every stored metric has one entry per cycle and equals the function applied to that '
          'cycle\'s samples, that the subset is exactly the cycles satisfying all condition strings at the time of the pick numbered in order, that chains '
